@@ -84,6 +84,22 @@ pub fn run_c05(seed: u64, n: usize, out: &mut Out) {
             }
         }
         if r.pct(20) {
+            // rules whose request types were all negated away share a bucket with ordinary ones: an exception of that kind still
+            // applies to documents, and whatever the optimiser does with the bucket must keep it
+            let w: &str = r.pick(&["adpage", "landing"]);
+            let all_neg = "~font,~image,~media,~object,~other,~ping,~script,~stylesheet,~subdocument,~websocket,~xmlhttprequest";
+            lines.push(format!("/{}.$document", w));
+            lines.push(format!("@@-{}-$script", w));
+            lines.push(format!("@@/{}.${}", w, all_neg));
+            if r.pct(50) {
+                lines.push(format!("/{}.${}", w, all_neg));
+                lines.push(format!("/{}/x$image", w));
+            }
+            for (u, t) in [(format!("https://cdn.test/{}.html", w), "document"), (format!("https://cdn.test/{}.js", w), "script"), (format!("https://cdn.test/-{}-/{}.html", w, w), "document")] {
+                aimed.push((u, r.pick(&["", "https://shop.test/"]).to_string(), t.to_string()));
+            }
+        }
+        if r.pct(20) {
             lines.extend(every_tag_copies(&mut r));
             for p in ["x1", "x2"] {
                 aimed.push((format!("https://cdn.test/{}", p), "https://shop.test/".to_string(), "script".to_string()));
@@ -99,7 +115,8 @@ pub fn run_c05(seed: u64, n: usize, out: &mut Out) {
             continue;
         }
         let mut live_optimized = false;
-        for k in 0..5 {
+        let rounds = 5 + aimed.len().min(4);
+        for k in 0..rounds {
             let (u, s, t) = match aimed.pop() {
                 Some(a) if k >= 3 || r.pct(50) => a,
                 Some(a) => {
@@ -433,7 +450,7 @@ pub fn run_c04(seed: u64, n: usize, out: &mut Out) {
 
 // ------------------------------------------------------------------------------------------ C13
 fn gen_store(r: &mut Rng) -> Vec<Resource> {
-    let names = ["a.js", "b.gif", "noop.js", "c.css", "perm.js", "fn.js", "tpl", "alias-a", "x1", "x2"];
+    let names = ["a.js", "b.gif", "noop.js", "c.css", "perm.js", "fn.js", "tpl", "alias-a", "x1", "x2", "x=1", "x=2", "stub.js?v=2", "x"];
     let n = 2 + r.below(6);
     let mut v = vec![];
     for _ in 0..n {
@@ -495,7 +512,8 @@ pub fn run_c13(seed: u64, n: usize, out: &mut Out) {
         let mut bare_host: Option<String> = None;
         if r.pct(35) {
             let h = r.pick(&["cdn.test", "shop.test", "other.net"]).to_string();
-            let res = |r: &mut Rng| format!("{}{}", r.pick(&["a.js", "b.gif", "alias-a", "missing.js"]), r.pick(&["", ":5", ":-1", ":10"]));
+            // (resource names may contain `=`: an option's value is everything after its first `=`)
+            let res = |r: &mut Rng| format!("{}{}", r.pick(&["a.js", "b.gif", "alias-a", "missing.js", "x=1", "x=2", "stub.js?v=2", "x"]), r.pick(&["", ":5", ":-1", ":10"]));
             lines.push(format!("||{}^$redirect={}", h, res(&mut r)));
             if r.pct(50) {
                 lines.push(format!("||{}^$redirect-rule={}", h, res(&mut r)));
@@ -504,7 +522,7 @@ pub fn run_c13(seed: u64, n: usize, out: &mut Out) {
                 lines.push(format!("||{}^$document,redirect-rule={}", h, res(&mut r)));
             }
             if r.pct(25) {
-                lines.push(format!("@@||{}^$redirect-rule={}", h, r.pick(&["a.js", "b.gif", "alias-a"])));
+                lines.push(format!("@@||{}^$redirect-rule={}", h, r.pick(&["a.js", "b.gif", "alias-a", "x=2", "x"])));
             }
             bare_host = Some(h);
         }
@@ -588,7 +606,20 @@ pub fn run_c15(seed: u64, n: usize, out: &mut Out) {
         }
         let optimize = r.pct(50);
         let tags = tagsets(&mut r);
-        let e = build(&lines, optimize, &tags, &resources);
+        let mut e = build(&lines, optimize, &tags, &resources);
+        // the same policies from an engine that was saved and loaded again (a blanket `$csp` exception carries no value)
+        if r.pct(35) {
+            if let Ok(bytes) = e.serialize_raw() {
+                let mut e3 = Engine::new(true);
+                e3.use_tags(&tags.iter().map(|s| s.as_str()).collect::<Vec<_>>());
+                if e3.deserialize(&bytes).is_ok() {
+                    e = e3;
+                    out.bump("c15_reloaded_engines");
+                } else {
+                    out.fail("deserialize-of-own-serialization-failed", None, json!({"rules": lines}));
+                }
+            }
+        }
         // rule order must not matter
         let mut shuffled = lines.clone();
         for i in (1..shuffled.len()).rev() {
